@@ -742,7 +742,13 @@ pub fn check_output(model: &Model, bytes: &[u8]) -> Result<Vec<Mismatch>, String
                 && func_magic_of(&model.base.funcs[(*f - model.base.num_imp_funcs()) as usize].body).map(Fp::Magic) == fp
         });
         let expected = owner.and_then(|f| model.local_names.iter().find(|(k, _)| *k == f)).map(|(_, v)| v);
-        if expected != Some(names) {
+        // a function that was converted and/or replaced has a new body under the old ID: what
+        // happens to the old body's local names is not stated by the property
+        let unstated = model
+            .alive_funcs()
+            .into_iter()
+            .any(|f| model.func_fp(f) == fp && model.funcs[f as usize].rebodied);
+        if expected != Some(names) && !unstated {
             mm.push(Mismatch::new("name_migrated", "local", format!("local names {:?} attached to {:?}", names, fp)));
         }
     }
